@@ -24,6 +24,7 @@
 import Y0.Lemmas.IdTotal
 import Y0.Lemmas.IdTopoAnc
 import Y0.Lemmas.IdHedge
+import Y0.Lemmas.IdFuel
 
 namespace Y0
 open IdDsl IdAux
@@ -165,5 +166,17 @@ theorem id_total_acyclic (G : MG Name) (X Y : List Name) (hG : G.WF) (hac : G.Ac
 /-- the napkin query is a valid query (rank = the node number) -/
 example : ValidQuery (MG.fromEdges [0, 1, 2, 3] [(0, 1), (1, 2), (2, 3)] [(0, 2), (0, 3)]) [2] [3] :=
   ⟨MG.wf_fromEdges _ _ _, ⟨fun v => v, by decide⟩, by decide, by decide, by decide⟩
+
+/-- the bow arc `X → Y`, `X ↔ Y` is refused (line 5): the refusal outcome is reachable, so `id_total` is not
+about estimands only -/
+example : idAlg MG.topologicalSort
+    { G := MG.fromEdges [0, 1] [(0, 1)] [(0, 1)], X := [0], Y := [1],
+      est := .prob none [Var.plain 0, Var.plain 1] [] } = .error .unidentifiable := by
+  rw [idAlg_eq]
+  have : step MG.topologicalSort
+      { G := MG.fromEdges [0, 1] [(0, 1)] [(0, 1)], X := [0], Y := [1],
+        est := .prob none [Var.plain 0, Var.plain 1] [] } = .error .unidentifiable := by
+    unfold step; rfl
+  rw [this]
 
 end Y0
